@@ -70,6 +70,13 @@ func (p *JSONParser) Parse(jsonString string) (*core.Payload, error) {
 		)
 	}
 
+	// A null element is not a valid value for a repeated field. The proto JSON
+	// unmarshaler accepts it and stores a nil message, which panics as soon as
+	// the enclosing message is marshaled again to be packed into an Any.
+	if hasNullListElement(jsonData) {
+		return nil, core.ErrParsingPayload.Wrap("json lists cannot contain null elements")
+	}
+
 	pw := core.PayloadWrapper{}
 	err = types.UnmarshalJSON(p.cdc, []byte(jsonString), &pw)
 	if err != nil {
@@ -80,4 +87,25 @@ func (p *JSONParser) Parse(jsonString string) (*core.Payload, error) {
 	}
 
 	return pw.Orbiter, nil
+}
+
+// hasNullListElement reports whether any list nested in the
+// decoded JSON value contains a null element.
+func hasNullListElement(v any) bool {
+	switch t := v.(type) {
+	case map[string]any:
+		for _, e := range t {
+			if hasNullListElement(e) {
+				return true
+			}
+		}
+	case []any:
+		for _, e := range t {
+			if e == nil || hasNullListElement(e) {
+				return true
+			}
+		}
+	}
+
+	return false
 }
